@@ -913,33 +913,42 @@ def gen_texts(rng, written, thorough):
         out.append(("long-string", "agree", S("\"" + "ab\\n" * d + "\"")))
         out.append(("long-symbol", "agree", S("x" * d)))
         out.append(("long-integer", "agree", S("1" + "0" * d)))
-    # number syntax, generated from the R7RS grammar (valid by construction)
-    for i in range(2000 if thorough else 400):
+    # number syntax, generated from the R7RS grammar (valid by construction); the class names the features used
+    for i in range(3000 if thorough else 600):
         radix = rng.choice(["", "", "", "", "#x", "#b", "#o", "#d"])
         exact = rng.choice(["", "", "", "#e", "#i"])
         pre = rng.choice([radix + exact, exact + radix])
-        if rng.random() < 0.2:
+        upper = rng.random() < 0.15 and pre != ""
+        if upper:
             pre = pre.upper()
         dig = {"#x": "0123456789abcdefABCDEF", "#b": "01", "#o": "01234567"}.get(radix, "0123456789")
+        kinds = []
 
         def ureal():
-            body = "".join(rng.choice(dig) for _ in range(rng.randint(1, rng.choice([3, 6, 25]))))
+            n = rng.randint(1, rng.choice([3, 6, 25]))
+            body = "".join(rng.choice(dig) for _ in range(n))
             c = rng.random()
             if c < 0.2:
                 body += "/" + rng.choice(dig.replace("0", "") or "1") + "".join(rng.choice(dig) for _ in range(rng.randint(0, 4)))
+                kinds.append("ratio")
             elif c < 0.45 and radix in ("", "#d"):
                 body += "." + "".join(rng.choice(dig) for _ in range(rng.randint(0, 6)))
                 if rng.random() < 0.3:
                     body += "e" + rng.choice(["", "+", "-"]) + str(rng.randint(0, 30))
+                kinds.append("decimal")
             elif c < 0.55 and radix in ("", "#d"):
                 body += "e" + rng.choice(["", "+", "-"]) + str(rng.randint(0, 30))
+                kinds.append("decimal")
+            else:
+                kinds.append("bigint" if n > 15 else "int")
             return body
         txt = pre + rng.choice(["", "+", "-"]) + ureal()
-        cls = "number-real"
+        shape = "real"
         if rng.random() < 0.15:
             txt += rng.choice(["+", "-"]) + rng.choice([ureal(), ""]) + "i"
-            cls = "number-complex"
-        out.append((cls + ("-prefixed" if pre else ""), "agree", S(txt)))
+            shape = "complex"
+        cls = "number-%s-%s%s%s%s" % (shape, "+".join(sorted(set(kinds))), "-radix" if radix else "", "-" + exact[1] + "prefix" if exact else "", "-uppercase" if upper else "")
+        out.append((cls, "agree", S(txt)))
     return out
 
 
